@@ -67,6 +67,7 @@ type SpecDB struct {
 	specFns     map[string]ufSig
 	axioms      []*Clause
 	macros      map[string]*Expr
+	pmacros     map[string]*Clause // parametric macros
 }
 
 type Lemma struct {
@@ -135,7 +136,7 @@ func parseProps(s string) map[string]bool {
 
 // LoadSpecs reads all zz_contracts_verif.go files of the loaded packages.
 func LoadSpecs(pkgs []*packages.Package) (*SpecDB, error) {
-	db := &SpecDB{byFunc: map[string]*FuncSpec{}, forceInline: map[string]bool{}, specFns: map[string]ufSig{}, macros: map[string]*Expr{}}
+	db := &SpecDB{byFunc: map[string]*FuncSpec{}, forceInline: map[string]bool{}, specFns: map[string]ufSig{}, macros: map[string]*Expr{}, pmacros: map[string]*Clause{}}
 	for _, p := range pkgs {
 		for _, f := range p.GoFiles {
 			if filepath.Base(f) != "zz_contracts_verif.go" {
@@ -210,7 +211,16 @@ func (db *SpecDB) loadFile(pkgPath, file string) error {
 			if err != nil {
 				return fmt.Errorf("%s: %v", where, err)
 			}
-			db.macros[strings.TrimSpace(rest[:i])] = ex
+			mname := strings.TrimSpace(rest[:i])
+			if k := strings.Index(mname, "("); k >= 0 {
+				var params []string
+				for _, p := range strings.Split(strings.TrimSuffix(mname[k+1:], ")"), ",") {
+					params = append(params, strings.TrimSpace(p))
+				}
+				db.pmacros[mname[:k]] = &Clause{Kind: "macro", Name: mname[:k], Params: params, Expr: ex, Line: where}
+			} else {
+				db.macros[mname] = ex
+			}
 		case strings.HasPrefix(body, "specfn "):
 			// specfn name(Sort, Sort): Sort
 			rest := strings.TrimSpace(body[7:])
@@ -503,7 +513,34 @@ func (p *parser) parseImpl() (*Expr, error) {
 			so := "Int"
 			if p.isOp(":") {
 				p.next()
-				so = p.next().v
+				if p.isOp("(") {
+					// parenthesised SMT sort, e.g. (Array Key OptS)
+					depth := 0
+					var parts []string
+					for {
+						t := p.next()
+						if t.k == "eof" {
+							return nil, fmt.Errorf("unterminated sort")
+						}
+						if t.v == "(" {
+							depth++
+							parts = append(parts, "(")
+							continue
+						}
+						if t.v == ")" {
+							depth--
+							parts = append(parts, ")")
+							if depth == 0 {
+								break
+							}
+							continue
+						}
+						parts = append(parts, t.v)
+					}
+					so = strings.ReplaceAll(strings.ReplaceAll(strings.Join(parts, " "), "( ", "("), " )", ")")
+				} else {
+					so = p.next().v
+				}
 			}
 			q.Vars = append(q.Vars, v.v)
 			q.Srts = append(q.Srts, so)
